@@ -32,6 +32,7 @@ Families
 from __future__ import annotations
 
 import itertools
+import os
 
 import torch
 
@@ -42,6 +43,9 @@ from mc.models import hedge_world as hw
 
 FAMILIES = {}
 family = hw.family_decorator(FAMILIES)
+#: optional diagnostic outside the claim (default OFF): worlds on user subclasses of the primaries that override
+#: library properties (volatility / variance); see hedge_world.USER_SUBCLASS_WORLDS
+USER_SUBCLASS_WORLDS = os.environ.get("VERIF_USER_SUBCLASS") == "1"
 
 
 # Exact (dyadic) features and models are compared bitwise; anything that goes through a logarithm,
@@ -870,8 +874,8 @@ def run(ctx):
              "vectors reached, transitions = per-path steps; non-trivial = steps entered with a non-zero state). "
              "hedge_ops: BFS to a fixpoint over call histories on one hedger (abstract state = shape/dtype of the "
              "stale prev_output). Worlds include derivatives whose own maturity is shorter / longer than the registered "
-             "time grid (shared underlier), a short-dated listed hedge, user subclasses of the primaries overriding "
-             "volatility/variance, and variance scripts with negative and zero entries; the loop is also run on copy.deepcopy(hedger) "
+             "time grid (shared underlier), a short-dated listed hedge, and variance scripts with negative and zero entries "
+             "(user subclasses of the primaries only with VERIF_USER_SUBCLASS=1, outside the claim); the loop is also run on copy.deepcopy(hedger) "
              "taken before / after the original's first use. branches (train() and, on a sub-grid, eval() mode): every state-independent model x world evaluated through both branches "
              "and the reference loop (non-trivial = paths on which the position changes over time)")
     ctx.assume("the model is deterministic and row-wise; the hedger, not the model, is under test")
@@ -1040,7 +1044,8 @@ def run(ctx):
     # USER SUBCLASSES of the primaries overriding documented properties (volatility term structure on a
     # BrownianStock subclass, floored volatility on a HestonStock subclass) and variance scripts with negative
     # and zero entries (register_buffer scenario sets; the volatility property clamps them at 0)
-    for ul, kind, av in itertools.product(("brownian_ts", "heston_user", "heston", "rough_bergomi"),
+    for ul, kind, av in itertools.product((("brownian_ts", "heston_user") if USER_SUBCLASS_WORLDS else ())
+                                          + ("heston", "rough_bergomi"),
                                           ("european", "lookback") if ctx.quick else market.OPTION_KINDS,
                                           ("std", "neg")):
         if (av == "neg") != (ul in ("heston", "rough_bergomi")):
